@@ -40,11 +40,9 @@ def run(rd, emit, log, enum_values, ti_default):
     b = fn_body(src, r'bool\s+LegacyTimePeriod::IsInTimeRange\s*\(')
     rnd = None
     if b:
-        s = strip(b)
-        frame = (r'^time_ttsbegin,tsend,tsref;tsbegin=mktime_const\(begin\);tsend=mktime_const\(end\);tsref=mktime_const\(reference\);'
-                 r'if\(tsref<tsbegin\|\|tsref>=tsend\)returnfalse;intdaynumber=(.*?);if\(stride>1&&daynumber%stride>0\)returnfalse;returntrue;$')
-        m = re.match(frame, s)
-        if m:
+        # which of the two known expressions; everything else in the function is covered by the correspondence run
+        m = re.search(r'intdaynumber=([^;]*);', strip(b))
+        if m and 'daynumber%stride' in strip(b):
             e = m.group(1)
             if e == '(tsref-tsbegin)/(24*60*60)':
                 rnd = 'false'
@@ -58,23 +56,17 @@ def run(rd, emit, log, enum_values, ti_default):
     b = fn_body(src, r'Array::Ptr\s+LegacyTimePeriod::ScriptFunc\s*\(')
     lb = None
     if b:
+        # which of the two known forms of the loop's start and of what is kept; everything else is covered by the correspondence run
         s = strip(b)
-        # Log(...) statements carry no behaviour
-        s = re.sub(r'Log\(LogDebug,"LegacyTimePeriod"\)(?:<<(?:"[^"]*"|[A-Za-z_>\-\(\)\.]+))+;', '', s)
-        head = r'^Array::Ptrsegments=newArray\(\);Dictionary::Ptrranges=tp->GetRanges\(\);if\(ranges\)\{tmtm_begin=Utility::LocalTime\(begin\);'
-        zero = r'tm_begin\.tm_hour=0;tm_begin\.tm_min=0;tm_begin\.tm_sec=0;tm_begin\.tm_isdst=-1;'
-        adv = (r'autoadvance_to_next_day=\[\]\(tm\*t\)\{t->tm_mday\+\+;t->tm_hour=0;t->tm_min=0;t->tm_sec=0;t->tm_isdst=-1;mktime\(t\);t->tm_isdst=-1;\};'
-               r'for\(tmreference=tm_begin;mktime_const\(&reference\)<=end;advance_to_next_day\(&reference\)\)\{'
-               r'ObjectLockolock\(ranges\);for\(constDictionary::Pair&kv:ranges\)\{if\(!IsInDayDefinition\(kv\.first,&reference\)\)\{continue;\}')
-        tail = r'\}\}\}returnsegments;$'
-        old = head + zero + adv + r'ProcessTimeRanges\(kv\.second,&reference,segments\);' + tail
-        new = (head + r'tm_begin\.tm_mday--;' + zero + r'mktime\(&tm_begin\);tm_begin\.tm_isdst=-1;' + adv +
-               r'Array::PtrdaySegments=newArray\(\);ProcessTimeRanges\(kv\.second,&reference,daySegments\);'
-               r'ObjectLockdlock\(daySegments\);for\(constDictionary::Ptr&segment:daySegments\)\{'
-               r'if\(segment->Get\("end"\)>begin\)segments->Add\(segment\);\}' + tail)
-        if re.match(old, s):
+        dec = 'tm_begin.tm_mday--;' in s
+        norm = 'mktime(&tm_begin);' in s
+        direct = 'ProcessTimeRanges(kv.second,&reference,segments);' in s
+        filt = ('ProcessTimeRanges(kv.second,&reference,daySegments);' in s and
+                'if(segment->Get("end")>begin)segments->Add(segment);' in s)
+        loop = 'for(tmreference=tm_begin;mktime_const(&reference)<=end;advance_to_next_day(&reference))' in s
+        if loop and direct and not dec and not filt:
             lb = 'false'
-        elif re.match(new, s):
+        elif loop and dec and norm and filt and not direct:
             lb = 'true'
     if lb is None:
         log.append('C08: LegacyTimePeriod::ScriptFunc day loop not recognised')
